@@ -1,7 +1,7 @@
 PROP = dict(
   units=['seqlock'],
   level='proof',
-  obligations=['sl.copy.all_bytes', 'sl.copy.in_bounds', 'sl.copy.aligned', 'sl.lock.parity', 'sl.lock.acquire', 'sl.writer.guarantee',
+  obligations=['sl.ctor.initial_value', 'sl.copy.all_bytes', 'sl.copy.in_bounds', 'sl.copy.aligned', 'sl.lock.parity', 'sl.lock.acquire', 'sl.writer.guarantee',
                'sl.slot.writer', 'sl.slot.reader', 'sl.slot.disjoint', 'sl.store_load.roundtrip', 'sl.update.applies', 'sl.update.read_under_lock',
                'sl.load.untorn', 'sl.load.fresh', 'sl.load.readonly', 'sl.load.sync', 'sl.store.sync', 'sl.load.terminates', 'sl.env.mod_lemma'],
   explanation='Every function of seqlock (read_data, store_data, load, store, update, acquire_lock, release_lock, is_write_pending) under contract on the extracted text: '
